@@ -525,6 +525,17 @@ inline GraphSpec gen_large_distinct(Rng &r, int lo = 65, int hi = 110) {
     return g;
 }
 
+
+// every property about graphs quantifies over SIMPLE graphs with positive weights: a generator that leaves that domain is a
+// harness failure (exit 2), never a verdict about parmcb
+inline void require_in_domain(const GraphSpec &g, const char *where) {
+    std::set<std::pair<int, int>> seen;
+    for (auto &e : g.edges) {
+        bool bad = e.u == e.v || e.u < 0 || e.v < 0 || e.u >= g.n || e.v >= g.n || e.w <= 0 || !seen.insert({std::min(e.u, e.v), std::max(e.u, e.v)}).second;
+        if (bad) { printf("X {\"msg\":\"generator left the domain (self-loop / parallel edge / bad endpoint / non-positive weight) in %s, family %s\"}\n", where, g.family.c_str()); fflush(stdout); exit(2); }
+    }
+}
+
 // ------------------------------------------------------------------------------------------------
 // Building a boost graph from a spec
 // ------------------------------------------------------------------------------------------------
@@ -539,9 +550,21 @@ template<class W> inline W to_weight(const GraphSpec &s, ll units);
 template<> inline double to_weight<double>(const GraphSpec &s, ll units) { return s.weight_of(units); }
 template<> inline int to_weight<int>(const GraphSpec &s, ll units) { return (int) units; }
 
+template<class W, class GraphT>
+inline void build_graph_any(const GraphSpec &s, GraphT &g) {
+    require_in_domain(s, "build_graph_any");
+    g = GraphT(s.n);
+    auto w = boost::get(boost::edge_weight, g);
+    for (auto &e : s.edges) { auto x = boost::add_edge(e.u, e.v, g).first; w[x] = to_weight<W>(s, e.w); }
+}
+// a legal but unusual graph type: another interior edge property is listed BEFORE edge_weight
+typedef boost::adjacency_list<boost::vecS, boost::vecS, boost::undirectedS, boost::no_property,
+        boost::property<boost::edge_index_t, std::size_t, boost::property<boost::edge_weight_t, double>>> GraphIdxFirst;
+
 template<class W>
 inline void build_graph(const GraphSpec &s, typename BG<W>::Graph &g) {
     typedef typename BG<W>::Graph G;
+    require_in_domain(s, "build_graph");
     g = G(s.n);
     auto w = boost::get(boost::edge_weight, g);
     for (auto &e : s.edges) { auto x = boost::add_edge(e.u, e.v, g).first; w[x] = to_weight<W>(s, e.w); }
@@ -559,10 +582,10 @@ struct BasisReport {
     size_t count = 0;
 };
 
-template<class W>
+template<class W, class GraphT = typename BG<W>::Graph>
 struct EdgeIndex {
-    typedef typename BG<W>::Graph G;
-    typedef typename BG<W>::Edge Edge;
+    typedef GraphT G;
+    typedef typename boost::graph_traits<GraphT>::edge_descriptor Edge;
     std::map<std::pair<int, int>, std::pair<int, const void*>> by_pair; // (min,max) -> (spec index, property pointer)
     EdgeIndex(const GraphSpec &s, const G &g) {
         std::map<std::pair<int, int>, int> spec_idx;
